@@ -23,7 +23,7 @@ def sample_cases(path, k=3, pred=None):
 
 def run_cmdline_property(v, family, design_cfg, replay_cfg="MC_CmdLine_replay.cfg", module="MC_CmdLine",
                          signature=None, judge=None, driver=None, transform=None, name=None,
-                         extra_files=(), enrich=None, trace_module="CmdLineTrace"):
+                         extra_files=(), enrich=None, trace_module="CmdLineTrace", ledger_every=0):
     """returns coverage dict pieces; v is the Verdict"""
     name = name or v.pid
     ensure_dirs()
@@ -55,7 +55,13 @@ def run_cmdline_property(v, family, design_cfg, replay_cfg="MC_CmdLine_replay.cf
         cases = tcases
     # 3. spec -> impl
     mm = os.path.join(WORK, f"{name}-{v.tier}-mm.ndjson")
-    summ = run_replay(hbin, defs_path, cases, mm)
+    hooks = os.path.join(WORK, f"{name}-{v.tier}-hooks.ndjson") if ledger_every else None
+    summ = run_replay(hbin, defs_path, cases, mm, hooks=hooks, hooks_every=ledger_every or 1)
+    if hooks:
+        ev, runs = validate_ledger(v, hooks, cases)
+        cov["ledger_events_validated"] = ev
+        cov["ledger_runs_validated"] = runs
+        os.remove(hooks)
     cov["replayed"] = summ["cases"]
     cov["impl_classes"] = summ["classes"]
     n_out = 0
